@@ -280,7 +280,7 @@ fn run_model_from(driver: &str, cases: &[Vec<String>]) -> (Vec<Vec<String>>, boo
             }
         }
     });
-    let per_line = Duration::from_secs(40);
+    let per_line = Duration::from_secs(20);
     let mut res = Vec::with_capacity(cases.len());
     let mut killed = false;
     'cases: for c in cases {
